@@ -213,6 +213,18 @@ class Repo:
         short = name.split(".")[-1]
         if name in mod.classes:
             return mod.classes[name]
+        if "." in name:
+            # qualified through an imported module: a module outside the analysed set (generated protobuf code,
+            # shapely, lxml ..) never denotes a repository class, whatever its short name
+            head = name.split(".")[0]
+            if head in mod.imports and head not in mod.classes:
+                src_mod, orig = mod.imports[head]
+                full = src_mod if orig is None else "%s.%s" % (src_mod, orig)
+                m = self._by_modname.get(full)
+                if m is None and self.class_index.get(head) is None and orig not in [c for c in self.class_index]:
+                    return None
+                if m is not None:
+                    return m.classes.get(short)
         if short in mod.imports:
             src_mod, orig = mod.imports[short]
             m = self._by_modname.get(src_mod)
